@@ -215,3 +215,46 @@ Proof.
   - repeat (apply Forall_cons || apply Forall_nil); cbn [api_arg_ok combine first_nonneg]; try exact I; lia.
   - vm_compute. split; reflexivity.
 Qed.
+
+(* ------------------------------------------------------------------ refused calls leave no trace (C05)
+   A call answered with ValueError or IOError changes nothing, so a history behaves exactly like the
+   history with its refused calls removed: same final state, and every remaining call gets the same
+   answer.  Every mode and layout, no hypothesis on the arguments. *)
+Definition refusedb (r : (Z * Z) * pystate) : bool :=
+  (fst (fst r) =? ValueError) || (fst (fst r) =? IOError).
+
+Fixpoint drop_refused (c : cfg) (ps : pystate) (ops : list apiop) : list apiop :=
+  match ops with
+  | [] => []
+  | op :: tl => if refusedb (api_call c ps op) then drop_refused c ps tl
+                else op :: drop_refused c (api_state c ps op) tl
+  end.
+
+Fixpoint answers (c : cfg) (ps : pystate) (ops : list apiop) : list (Z * Z) :=
+  match ops with
+  | [] => []
+  | op :: tl => fst (api_call c ps op) :: answers c (api_state c ps op) tl
+  end.
+
+Lemma refused_noop c ps op : refusedb (api_call c ps op) = true -> api_state c ps op = ps.
+Proof.
+  unfold refusedb, api_state. intros H.
+  assert (Hc : fst (fst (api_call c ps op)) = ValueError \/ fst (fst (api_call c ps op)) = IOError).
+  { apply orb_true_iff in H as [H|H]; apply Z.eqb_eq in H; auto. }
+  destruct op as [ns vec|G D vec]; cbn [api_call] in *.
+  - destruct (py_rf_write FromCursor c ps ns vec) as [[cls ret] ps'] eqn:E. cbn [fst snd] in *.
+    exact (py_rf_write_reject_noop _ _ _ _ _ _ _ _ E Hc).
+  - destruct (py_rf_write_blocks c ps G D vec) as [[cls ret] ps'] eqn:E. cbn [fst snd] in *.
+    exact (py_rf_write_blocks_reject_noop _ _ _ _ _ _ _ _ E Hc).
+Qed.
+
+Theorem refused_calls_leave_no_trace c ops : forall ps,
+  fold_left (api_state c) (drop_refused c ps ops) ps = fold_left (api_state c) ops ps /\
+  answers c ps (drop_refused c ps ops) = filter (fun r => negb ((fst r =? ValueError) || (fst r =? IOError))) (answers c ps ops).
+Proof.
+  induction ops as [|op tl IH]; intros ps; cbn [drop_refused fold_left answers filter]; [split; reflexivity|].
+  destruct (refusedb (api_call c ps op)) eqn:Er.
+  - rewrite (refused_noop c ps op Er). unfold refusedb in Er. rewrite Er. cbn [negb]. apply IH.
+  - unfold refusedb in Er. rewrite Er. cbn [negb fold_left answers].
+    destruct (IH (api_state c ps op)) as (H1 & H2). split; [exact H1|]. f_equal. exact H2.
+Qed.
